@@ -558,6 +558,92 @@ var scenarios = []scenario{
 	{"faultpos2", func(rd *runner) { rd.enumerate("p", 1000, "fault", raceScript) }},
 	{"restarts2", func(rd *runner) { rd.enumerate("r", 1000, "restart", raceScript) }},
 	{"gcruns2", func(rd *runner) { rd.enumerate("s", 1000, "gc", raceScript) }},
+	{"resend", func(rd *runner) {
+		// A ticket for an OLDER pending checkpoint C (mid-tile) is used by a request that RE-SENDS
+		// entries below the next entry (upload_start < C = upload_end) while another upload towards
+		// a newer pending checkpoint has processed all its packages (next entry further along in the
+		// same tile) but has not committed: the package ending at the cut C must leave the exact cut
+		// tiles (bundle and hash tile) in the store before C is signed.
+		rd.run("w", 1300, func(h *hist) { // the other upload commits afterwards
+			h.pending(900)
+			t := h.probe()
+			h.pending(1000)
+			a, _ := h.begin(0, 1000, "-")
+			h.pkgs(a)
+			h.upload(768, 900, t)
+			h.commit(a)
+			h.evRestart()
+			h.pending(1200)
+		})
+		rd.run("w", 1300, func(h *hist) { // the other upload never commits: restart, resume from C
+			h.pending(900)
+			t := h.probe()
+			h.pending(1000)
+			a, _ := h.begin(0, 1000, "-")
+			h.pkgs(a)
+			h.upload(768, 900, t)
+			h.evRestart()
+			h.pending(1200)
+			h.resume()
+			h.upload(1200, 1200, "-")
+		})
+		rd.run("w", 1300, func(h *hist) { // unaligned re-send inside the first tile, completed from the wider partial
+			h.pending(100)
+			t := h.probe()
+			h.pending(200)
+			a, _ := h.begin(0, 200, "-")
+			h.pkgs(a)
+			h.upload(50, 100, t)
+			h.evGC()
+			h.evRestart()
+			h.pending(300)
+			h.resume()
+		})
+		rd.run("w", 1300, func(h *hist) { // a re-send over several tiles, unaligned start, then a second older ticket
+			h.pending(600)
+			t6 := h.probe()
+			h.pending(900)
+			t9 := h.probe()
+			h.pending(1000)
+			a, _ := h.begin(0, 1000, "-")
+			h.pkgs(a)
+			b, _ := h.begin(300, 900, t9)
+			h.pkgs(b)
+			h.upload(520, 600, t6) // commits 600 (bundle d/2/88 from this package)
+			h.commit(b)            // commits 900
+			h.evRestart()
+			h.pending(1300)
+			h.resume()
+		})
+		for _, cut := range []int64{769, 900, 1023} { // every kind of cut in the tile of the next entry
+			cut := cut
+			rd.run("w", 1300, func(h *hist) {
+				h.pending(cut)
+				t := h.probe()
+				h.pending(1024 + 5)
+				a, _ := h.begin(0, 1024+5, "-")
+				h.pkg(a)
+				h.pkg(a)
+				h.pkg(a)
+				h.pkg(a) // next entry 1024: the full tile 3 exists
+				c, _ := h.begin(768, cut, t)
+				h.pkgs(c)
+				h.commit(c)
+				h.evRestart()
+				h.resume()
+			})
+			rd.run("w", 1300, func(h *hist) {
+				h.pending(cut)
+				t := h.probe()
+				h.pending(1023)
+				a, _ := h.begin(0, 1023, "-")
+				h.pkgs(a) // next entry 1023: only d/3/255
+				h.upload(h.r.Int63n(cut-700)+700, cut, t)
+				h.evRestart()
+				h.resume()
+			})
+		}
+	}},
 	{"retry", func(rd *runner) { rd.enumerate("p", 1000, "retry", baseScript) }},
 	{"retry2", func(rd *runner) { rd.enumerate("p", 1000, "retryalt", raceScript) }},
 	{"retryolder", func(rd *runner) { rd.enumerate("v", 1100, "retryall", olderScript) }},
